@@ -268,6 +268,7 @@ class BaseDiscretizer(BaseEstimator, TransformerMixin):
                     casted_feature: X[feature]
                     for feature, feature_casting in self.features_casting.items()
                     for casted_feature in feature_casting
+                    if feature in X  # missing columns are reported by _prepare_data
                 }
             )
 
